@@ -916,6 +916,16 @@ class Interp:
                 x = ca[0] if front else ca[-1]
                 y = cb[0] if front else cb[-1]
                 lx, ly = chunk_len(x), chunk_len(y)
+                # a symbolic-length chunk that is empty on this path is dropped
+                dropped = False
+                for side, ln in ((ca, lx), (cb, ly)):
+                    if not isinstance(ln, int) and not (isinstance(lx, type(ly)) and not isinstance(ly, int)
+                                                        and z3.simplify(lx - ly).eq(I(0))) and self.p.implied(ln == 0):
+                        side.pop(0 if front else -1)
+                        dropped = True
+                        break
+                if dropped:
+                    continue
                 if isinstance(lx, int) and isinstance(ly, int):
                     k = min(lx, ly)
                     if front:
